@@ -45,6 +45,7 @@ func c05hex(c *Ctx, rule string) {
 	pure := &shpModel{}
 	var notes []string
 	var readerOver []string // what the readers of the decode phase were created over
+	var hexSink oval        // the writer a hex.NewEncoder was created over
 	// while hex.Encode / hex.Decode run, the WKB functions they are expected to delegate to are
 	// described rather than interpreted (their own behaviour is C05.R1–R3's matter): wkb.Encode
 	// writes the reference stream of its argument, wkb.Decode reads the stream; a wrapper that
@@ -89,6 +90,15 @@ func c05hex(c *Ctx, rule string) {
 				return []oval{strVal(bytesT, hexStreamBytes), oNil{}}, true
 			}
 			return []oval{oSlice{typ: bytesT}, errV}, true
+		case full == "encoding/hex.NewEncoder" && len(args) == 1:
+			// a writer that puts the hexadecimal text of what it is given into its sink: the stream
+			// model records the bytes, the sink is remembered
+			hexSink = args[0]
+			return []oval{oIface{opaque: &oOpaque{name: "stream", methods: []string{"Read", "Write", "Len"}}}}, true
+		case (full == "(*strings.Builder).String" || full == "(*bytes.Buffer).String") && hexSink != nil:
+			if same, ok := oEqual(hexSink, recv); ok && same || sameCell(hexSink, recv) {
+				return []oval{strVal(strT, hexStreamText)}, true
+			}
 		case full == "fmt.Sprintf" && len(args) >= 2:
 			if s, ok := strOf(args[0]); ok && s == "%x" {
 				if sl, ok := args[1].(oSlice); ok && sl.length() == 1 {
@@ -135,6 +145,7 @@ func c05hex(c *Ctx, rule string) {
 			// ---- Encode
 			if ev.bad == "" && ev.unk == "" {
 				w.stream, w.pos, w.problems, notes = nil, 0, nil, nil
+				hexSink = nil
 				delegate.on, delegate.refuse, delegate.ref, delegate.encArgs = true, false, ref, nil
 				res, why := w.m.it.Call(enc, nil, []oval{val, ord[o]}, 0)
 				delegate.on = false
@@ -245,4 +256,23 @@ func elemDyn(v oval) oval {
 		return iv.dyn
 	}
 	return v
+}
+
+// sameCell: two pointers to the same variable or structure.
+func sameCell(a, b oval) bool {
+	if ia, ok := a.(oIface); ok {
+		a = ia.dyn
+	}
+	if ib, ok := b.(oIface); ok {
+		b = ib.dyn
+	}
+	switch x := a.(type) {
+	case oPtr:
+		y, ok := b.(oPtr)
+		return ok && x.s != nil && x.s == y.s
+	case oRef:
+		y, ok := b.(oRef)
+		return ok && (x.cell != nil && x.cell == y.cell || x.st != nil && x.st == y.st && x.field == y.field)
+	}
+	return false
 }
